@@ -113,3 +113,60 @@ def post_str_is_to_str(r):
 
 def post_format_is_to_str(r):
     return r.result == r.old_self.to_str(r.spec)
+
+
+# ------------------------------------------------------------------------------------------ C14: spellings
+def post_scrub_same_as_reference(r):
+    """this spelling yields the same settings (texts, in order) as the reference spelling"""
+    return texts(r.result) == r.expected
+
+
+def rgb_expected(prefix, rr, gg, bb):
+    exp = []
+    if prefix == 'ul_':
+        exp.append('4')
+    if prefix == 'dul_':
+        exp.append('21')
+    intro = '38'
+    if prefix == 'bg_':
+        intro = '48'
+    if prefix == 'ul_' or prefix == 'dul_':
+        intro = '58'
+    exp.append(';'.join([intro, '2', str(clamp255(rr)), str(clamp255(gg)), str(clamp255(bb))]))
+    return exp
+
+
+def rgb24_expected(prefix, x):
+    exp = []
+    if prefix == 'ul_':
+        exp.append('4')
+    if prefix == 'dul_':
+        exp.append('21')
+    intro = '38'
+    if prefix == 'bg_':
+        intro = '48'
+    if prefix == 'ul_' or prefix == 'dul_':
+        intro = '58'
+    exp.append(';'.join([intro, '2', str((x // 65536) % 256), str((x // 256) % 256), str(x % 256)]))
+    return exp
+
+
+def c256_expected(prefix, n):
+    exp = []
+    if prefix == 'ul_':
+        exp.append('4')
+    if prefix == 'dul_':
+        exp.append('21')
+    intro = '38'
+    if prefix == 'bg_':
+        intro = '48'
+    if prefix == 'ul_' or prefix == 'dul_':
+        intro = '58'
+    exp.append(';'.join([intro, '5', str(n)]))
+    return exp
+
+
+def post_parse_rgb_string(r):
+    if r.expected is None:
+        return r.result is None
+    return r.result is not None and texts(r.result) == r.expected
